@@ -511,7 +511,7 @@ static int vi_motionln(int *row, int cmd)
 		*row = MAX(*row - cnt, 0);
 		break;
 	case 'G':
-		*row = (vi_arg1 || vi_arg2) ? cnt - 1 : lbuf_len(xb) - 1;
+		*row = (vi_arg1 || vi_arg2) ? MIN(cnt - 1, lbuf_len(xb) - 1) : lbuf_len(xb) - 1;
 		break;
 	case 'H':
 		*row = MIN(xtop + cnt - 1, lbuf_len(xb) - 1);
